@@ -114,7 +114,12 @@ func main() {
 	n := run.Scale(300, 6000)
 	for i := 0; i < n; i++ {
 		g := &appdrv.Gen{U: u, R: run.RNG.Fork(), Weird: i%5 == 0}
-		h, _, _ := g.RandomHistory(3+run.RNG.Intn(6), 7)
+		var h appdrv.History
+		if i%2 == 1 {
+			h, _, _ = g.TransitionHistory(3+run.RNG.Intn(6), 8)
+		} else {
+			h, _, _ = g.RandomHistory(3+run.RNG.Intn(6), 7)
+		}
 		replicate(run, h, 1, "C09:replicas-diverge")
 		emit(run, h)
 	}
